@@ -330,6 +330,11 @@ func strGmatchIter(L *LState) int {
 func strGmatch(L *LState) int {
 	str := L.CheckString(1)
 	pattern := L.CheckString(2)
+	if strings.HasPrefix(pattern, "^") {
+		// in gmatch a leading '^' is not an anchor (that would prevent the iteration):
+		// Lua 5.1 matches it as an ordinary character
+		pattern = "%" + pattern
+	}
 	mds, err := pm.Find(pattern, []byte(str), 0, -1)
 	if err != nil {
 		L.RaiseError(err.Error())
